@@ -49,6 +49,20 @@ extern void frgv_native_assert_fail(const char *msg);
 #  define FRGV_RAW_STORAGE(x) ((void)0)
 #endif
 
+/* FRGV_ACC(p, f): access to field f through pointer p of a record type a unit declared "guarded"
+ * (lower_opts.access_hooks). A unit may define FRGV_ACCESS_HOOK(addr, size) before this header. */
+#ifndef FRGV_ACCESS_HOOK
+#  define FRGV_ACCESS_HOOK(a, n) ((void)0)
+#endif
+#define FRGV_ACC(p, f) (*({ __typeof__(&(p)->f) __frgv_a = &(p)->f; FRGV_ACCESS_HOOK((void *)__frgv_a, sizeof(*__frgv_a)); __frgv_a; }))
+
+/* pointer <-> integer conversions (reinterpret_cast). Default: the C casts. A unit may supply its own address map
+ * (the slab unit places pool memory in a flat arena so that address arithmetic stays concrete). */
+#ifndef FRGV_P2I
+#  define FRGV_P2I(p) ((uintptr_t)(p))
+#  define FRGV_I2P(i) ((void *)(uintptr_t)(i))
+#endif
+
 #define FRGV_FNPTR_NONNULL(f) 1   /* the weak hooks frg_panic / frg_log are taken as present */
 
 struct frgv_std_empty { char __empty; };   /* std::index_sequence<...> and similar tag types */
